@@ -104,7 +104,8 @@ def _extra_configs(tier):
         out.append({'block': 'AsynchronousMemory', 'aw': aw, 'dw': dw})
     out.append({'block': 'AutoReset'})
     out.append({'block': 'ClockSyncFSM'})
-    out.append({'block': 'MsgSequencer'})
+    for msg in ('Hi', 'abc', 'hello', 'sevench', 'Z'):
+        out.append({'block': 'MsgSequencer', 'msg': msg})
     for w in W:
         for rv in (0, 1, (1 << w) - 1):
             out.append({'block': 'RegTwoDomains', 'w': w, 'rv': rv})
@@ -220,7 +221,7 @@ def _build_extra(d):
         ClockSyncFSM(hw, 'dut', I('start'), I('stop'), O('sync'), O('active'))
     elif b == 'MsgSequencer':
         from py4hw.logic.protocol.uart.sequencer import MsgSequencer
-        MsgSequencer(hw, 'dut', I('ready'), O('valid'), O('v', 8), 'Hi')
+        MsgSequencer(hw, 'dut', I('ready'), O('valid'), O('v', 8), d.get('msg', 'Hi'))
     elif b == 'RegTwoDomains':
         w = d['w']
         x = I('d', w)
@@ -357,7 +358,8 @@ def configs(tier, small=False):
     for c in c08._configs(tier):
         out.append(('c08', c))
     for c in c09._configs(tier):
-        out.append(('c09', c))
+        if not c.get('maxdepth'):        # depth-bounded (non-closing) counter configurations are for C09 only
+            out.append(('c09', c))
     seen = set()
     for sh in c14.shards(tier):
         if sh.get('rf') == 'all':
